@@ -255,6 +255,9 @@ type Conc struct {
 	Wrap func(f func())
 	// MaxPoints is the horizon of scheduling points per execution (0 = 20000).
 	MaxPoints int
+	// InvariantOnly: executions are judged by Check alone (the statement's
+	// invariant); no comparison with serial outcomes.
+	InvariantOnly bool
 }
 
 func (c Conc) wrap(f func()) {
@@ -337,7 +340,7 @@ func (c Conc) Scenario(allowed map[string]string) Scenario {
 			if in.Check != nil {
 				in.Check(ex)
 			}
-			if _, ok := allowed[ex.Sig]; !ok && len(ex.Res.Panics) == 0 {
+			if _, ok := allowed[ex.Sig]; !ok && len(ex.Res.Panics) == 0 && !c.InvariantOnly {
 				ex.Bad("not-serializable", "the outcome of this interleaving equals the outcome of NO order in which the same operations run one after the other. %s", nearest(ex.Sig, allowed))
 			}
 		})
@@ -365,7 +368,7 @@ func (c Conc) FreeRunConc(rep *kit.Report, env kit.Env, allowed map[string]strin
 			if in.Check != nil {
 				in.Check(ex)
 			}
-			if _, ok := allowed[ex.Sig]; !ok && len(ex.Res.Panics) == 0 {
+			if _, ok := allowed[ex.Sig]; !ok && len(ex.Res.Panics) == 0 && !c.InvariantOnly {
 				ex.Bad("not-serializable", "free-running: outcome equals no serial order. %s", nearest(ex.Sig, allowed))
 			}
 		})
@@ -435,7 +438,11 @@ func clipAllowed(allowed map[string]string) string {
 // ExploreConc computes the serial outcomes, explores all schedules within the
 // bound and records the statistics.
 func ExploreConc(rep *kit.Report, env kit.Env, c Conc, bound int, top *int) Stats {
-	allowed, nser := c.Serial()
+	var allowed map[string]string
+	nser := 0
+	if !c.InvariantOnly {
+		allowed, nser = c.Serial()
+	}
 	sc := c.Scenario(allowed)
 	st := Explore(rep, env, sc, bound, top)
 	Record(rep, sc, st)
